@@ -131,8 +131,13 @@ def run(ctx, rep) -> None:
     guard = [n for n in cm.node.body if isinstance(n, ast.If) and norm(n.test) == "scope.depth > 0" and any(isinstance(s, ast.Return) for s in n.body)]
     ok = bool(pubs) and bool(dec) and bool(guard) and dec[0].lineno < guard[0].lineno < min(p.lineno for p in pubs)
     rep.check(ok, "C13.R3", "commit publishes only when the outermost scope closes", "depth -= 1; if depth > 0: return; publish pending", cm.file, cm.node.lineno, disc="commit")
-    clr = lambda f: any(isinstance(n, ast.Assign) and norm(n) == "_local.scope = None" for n in ast.walk(f.node))  # noqa: E731
-    rep.check(clr(ab) and clr(cm), "C13.R3", "both close the thread-local scope", "_local.scope = None", cm.file, cm.node.lineno, disc="clear")
+    clr = lambda f: [n for n in ast.walk(f.node) if isinstance(n, ast.Assign) and norm(n) == "_local.scope = None"]  # noqa: E731
+    rep.check(bool(clr(ab)) and bool(clr(cm)), "C13.R3", "both close the thread-local scope", "_local.scope = None", cm.file, cm.node.lineno, disc="clear")
+    # the scope is unbound BEFORE the deferred events are published: a subscriber that records an event while being notified
+    # must not join the already committed transaction (its event would be announced but never committed)
+    in_finally = [n for t_ in ast.walk(cm.node) if isinstance(t_, ast.Try) for s_ in t_.finalbody for n in ast.walk(s_) if isinstance(n, ast.Assign) and norm(n) == "_local.scope = None"]
+    ok = bool(clr(cm)) and bool(pubs) and max(n.lineno for n in clr(cm)) < min(p_.lineno for p_ in pubs) and not in_finally
+    rep.check(ok, "C13.R3", "the scope is closed before the deferred publication starts", "_local.scope = None precedes the publish loop (not in a finally after it)", cm.file, clr(cm)[0].lineno if clr(cm) else cm.node.lineno, disc="clear-before-publish")
 
     # ---- R4 -------------------------------------------------------------------------------------
     es = prog.cls("stabilize.events.store.sqlite.events", "SqliteEventStoreMixin").methods["append_batch"]
@@ -208,3 +213,17 @@ def run(ctx, rep) -> None:
             else:
                 rep.ok("C13.R6", f"{pi.handler}: {e.get('name')}", "recorded after the state is durable", e.site[0], e.site[1])
     rep.floor("completion event call events on paths", n6, 20)
+    # R2 (paths): nothing commits inside a store transaction - otherwise state and event of one "transaction" land in different commits
+    n_in = 0
+    for pi in path_infos(res):
+        for e in pi.trace:
+            if e.kind == "auto" and e.get("in_txn"):
+                n_in += 1
+                key = ("in-txn", e.site, e.get("api"))
+                if key in seen:
+                    continue
+                seen.add(key)
+                rep.fail("C13.R2", f"{pi.handler}: {e.get('api')} inside a transaction body", f"{e.get('api')} ({str(e.get('ctx')).split('>')[-1]}) commits on the shared connection in the middle of the transaction: what was written before it (state) and after it (event, mark, messages) "
+                         "no longer commit together", e.site[0], e.site[1], disc=f"{e.get('api')}:{str(e.get('ctx')).split('>')[-1]}")
+    if not n_in:
+        rep.ok("C13.R2", "no self-committing store/queue call inside any transaction body", f"{sum(1 for p_ in path_infos(res) for e in p_.trace if e.kind == 'txn_begin')} transaction executions on all handler paths", "src/stabilize/handlers", 0)
